@@ -158,7 +158,7 @@ func TestVerifC43(t *testing.T) {
 		"must match the model (scans: every position before an error; iterator errors must be sticky); a failed Ingest must have no effect. After the " +
 		"faults stop: full audit against the model, CheckLevels, a crash clone (0/50/100 % survival) recovering to a legal prefix state, optional " +
 		"reopen. WAL/MANIFEST faults (fatal by design) are not injected. distinct_nontrivial = distinct (history, round, rule, position, injections) with >= 1 injected fault.")
-	n := vcommon.Scale(60, 1500)
+	n := vcommon.Scale(120, 1500)
 	k := dbcheck.Knobs{Name: "C43", Units: 0, RangeKeys: true, Batches: true, Maint: true, Ingest: true, BigValues: true, ValueSep: true,
 		Snapshots: true, NoAutoCompactionsPct: 10, TinyCaches: true}
 	R.Cases(n, func(i int, rng *rand.Rand) {
